@@ -170,6 +170,12 @@ pub enum VOp {
     IterNext { back: bool },
     /// drop the held iterator / drain
     IterRelease,
+    /// push by hand: reserve(1), write through as_mut_ptr, set_len(len + 1)
+    RawPush(u32),
+    /// unsafe set_len to a smaller length (the tail is leaked, in both worlds)
+    SetLenShrink(Pos),
+    /// take the vector apart (as_mut_ptr, len, capacity, bump) and rebuild it with from_raw_parts_in
+    RawPartsRoundTrip,
 }
 
 #[derive(Clone, Copy, Debug, PartialEq, Eq, Serialize, Deserialize)]
@@ -213,6 +219,9 @@ pub enum SOp {
     AddStr(String),
     IntoBytesRoundTrip,
     CmpHash,
+    /// 0: as_mut_ptr/len/capacity + from_raw_parts_in; 1: into_bytes + from_utf8_unchecked;
+    /// 2: unsafe as_mut_vec().push(ascii) and as_mut_str().make_ascii_uppercase()
+    UnsafeRoundTrip(u8),
 }
 
 #[derive(Clone, Debug, PartialEq, Serialize, Deserialize)]
